@@ -42,6 +42,7 @@ type DBStep struct {
 	Ver      uint32 `json:"ver,omitempty"`
 	Val      int    `json:"val,omitempty"`       // value token
 	SaveFail bool   `json:"save_fail,omitempty"` // the file system refuses the save
+	Restart  bool   `json:"restart,omitempty"`   // the server is restarted (file reopened, old handle dropped) before this call (C03)
 	Overlap  bool   `json:"overlap,omitempty"`   // an authorized read of the same secret runs in the middle of this call (C01)
 	Audit    string `json:"audit,omitempty"`     // "" | "write" | "sync": what the audit sink does with the next record
 }
@@ -563,6 +564,16 @@ func (e *dbEnv) exec(callers []DBCaller, st DBStep) stepObs {
 	e.sink.failNext = st.Audit
 	e.sink.lastHash = fileHash(e.path)
 	e.sink.mu.Unlock()
+	if st.Restart {
+		// the server restarts before this call: the old handle is dropped and the file opened again with the
+		// same key; from here on the RESTARTED handle serves and saves (acknowledged state must survive this,
+		// and so must the handle's ability to write files a later restart can open)
+		if d2, rerr := db.Open(e.path, e.kek, audit.New(e.sink)); rerr == nil {
+			e.d = d2
+		} else {
+			o.Note += "restart failed: " + rerr.Error() + "; "
+		}
+	}
 	hidden := e.state + ".hidden"
 	if st.SaveFail {
 		if err := os.Rename(e.state, hidden); err != nil {
